@@ -21,7 +21,9 @@
 EXTENDS RoundingDefs, Sequences, FiniteSets
 
 CONSTANTS LegacyImsaak,     \* TRUE = pre-fix get_imsaak (finding D7): only the Imsaak-adjusted run's flag is looked at
-          LegacyImsaakFlag  \* TRUE = pre-fix get_imsaak (finding D8): the interval fallback does not flag Imsaak extreme
+          LegacyImsaakFlag, \* TRUE = pre-fix get_imsaak (finding D8): the interval fallback does not flag Imsaak extreme
+          LegacyLateInt     \* TRUE = pre-fix adj_for_ext_lat (finding D9): intervals are applied only after the policy, so
+                            \* the placeholder angle-based hour of an interval-defined Fajr / Isha takes part in the validity test
 
 Imsaak == 1  Fajr == 2  Shurooq == 3  Dhuhr == 4  Asr == 5  Maghrib == 6  Isha == 7
 P6 == 2..7
@@ -139,9 +141,15 @@ AdjForInt(h, P) ==
                                       ELSE Inv]
             ELSE h1
 
+\* since the repair of D9 adj_for_ext_lat applies the intervals twice: before the validity test (an interval-defined
+\* Fajr / Isha exists whenever its Shurooq / Maghrib does) and, as before, after the policy
+PreInt(h, P) == IF LegacyLateInt THEN h ELSE AdjForInt(h, P)
+
 \* get_hours_adj_ext
-Hours(P, env) == AdjForInt(PolicyW(GetHours(env, P.var), P, env), P)
-HoursPanics(P, env, legacyUnwrap) == IntPanics(PolicyW(GetHours(env, P.var), P, env), P, legacyUnwrap)
+Hours(P, env) == AdjForInt(PolicyW(PreInt(GetHours(env, P.var), P), P, env), P)
+HoursPanics(P, env, legacyUnwrap) ==
+    \/ ~LegacyLateInt /\ IntPanics(GetHours(env, P.var), P, legacyUnwrap)
+    \/ IntPanics(PolicyW(PreInt(GetHours(env, P.var), P), P, env), P, legacyUnwrap)
 
 (* stage 4: to_prayer_time *)
 ToTime(P, key, c) ==
